@@ -445,22 +445,33 @@ fn codec_dec_signing_package_small() {
     core::mem::forget(x);
 }
 
-// @harness name=codec_ab_dkg_round1_package props=C12 kind=bounded bound="commitment length 2" tier=quick backs="keys::dkg::round1::Package: serialize(x) == hdr|len|c*|2|R|z (proof of knowledge as length-prefixed Signature bytes) and deserialize(enc(x)) == Ok(x)" expect=pass
+fn r1pkg_enc(c0: E, c1: E, r: E, z: S) -> [u8; 11] {
+    [H[0], H[1], H[2], H[3], H[4], 2, c0.0, c1.0, 2, r.0, z.0]
+}
+
+// @harness name=codec_enc_dkg_round1_package props=C12 kind=bounded bound="commitment length 2" tier=quick backs="keys::dkg::round1::Package lemma (A): serialize(x) == hdr|len|c*|2|R|z (proof of knowledge as length-prefixed Signature bytes)" expect=pass
 #[kani::proof]
 #[kani::unwind(5)]
 #[kani::stub(frost_core::serialization::short_id, stub_short_id)]
 #[kani::stub(std::fmt::format, stub_format)]
-fn codec_ab_dkg_round1_package() {
+fn codec_enc_dkg_round1_package() {
     let (c0, c1, r, z) = (any_e_nz(), any_e_nz(), any_e_nz(), any_s());
     let x = dkg::round1::Package::<Toy251>::new(vss(vec![c0, c1]), Signature::<Toy251>::new(r, z));
-    enc_dec!(
-        x,
-        dkg::round1::Package<Toy251>,
-        [H[0], H[1], H[2], H[3], H[4], 2, c0.0, c1.0, 2, r.0, z.0]
-    );
+    enc_is!(x, r1pkg_enc(c0, c1, r, z));
 }
 
-// @harness name=codec_ab_dkg_round1_package_len1 props=C12 kind=bounded bound="commitment length 1" tier=quick backs="keys::dkg::round1::Package wire format + decode" expect=pass
+// @harness name=codec_dec_dkg_round1_package props=C12 kind=bounded bound="commitment length 2" tier=quick backs="keys::dkg::round1::Package lemma (B): deserialize(enc(x)) == Ok(x)" expect=pass
+#[kani::proof]
+#[kani::unwind(5)]
+#[kani::stub(frost_core::serialization::short_id, stub_short_id)]
+#[kani::stub(std::fmt::format, stub_format)]
+fn codec_dec_dkg_round1_package() {
+    let (c0, c1, r, z) = (any_e_nz(), any_e_nz(), any_e_nz(), any_s());
+    let x = dkg::round1::Package::<Toy251>::new(vss(vec![c0, c1]), Signature::<Toy251>::new(r, z));
+    dec_is!(x, dkg::round1::Package<Toy251>, r1pkg_enc(c0, c1, r, z));
+}
+
+// @harness name=codec_ab_dkg_round1_package_len1 props=C12 kind=bounded bound="commitment length 1" tier=quick backs="keys::dkg::round1::Package lemmas (A)+(B), commitment length 1" expect=pass
 #[kani::proof]
 #[kani::unwind(5)]
 #[kani::stub(frost_core::serialization::short_id, stub_short_id)]
@@ -471,35 +482,53 @@ fn codec_ab_dkg_round1_package_len1() {
     enc_dec!(x, dkg::round1::Package<Toy251>, [H[0], H[1], H[2], H[3], H[4], 1, c0.0, 2, r.0, z.0]);
 }
 
-// @harness name=codec_ab_dkg_round1_secret_package props=C12,C13 kind=bounded bound="coefficients length 2, commitment length 2; min_signers, max_signers < 128" tier=quick backs="keys::dkg::round1::SecretPackage (state kept between DKG rounds; NO header on the wire): serialize(x) == id|n|coef*|m|comm*|min|max and deserialize(enc(x)) == Ok(x)" expect=pass
+fn r1sec(i: S, a: Vec<S>, c: Vec<E>, mn: u16, mx: u16) -> dkg::round1::SecretPackage<Toy251> {
+    dkg::round1::SecretPackage::<Toy251>::new(id_of(i), a, vss(c), mn, mx)
+}
+
+// @harness name=codec_enc_dkg_round1_secret_package props=C12,C13 kind=bounded bound="coefficients length 2, commitment length 2; min_signers, max_signers < 128" tier=quick backs="keys::dkg::round1::SecretPackage (state kept between DKG rounds; NO header on the wire) lemma (A): serialize(x) == id|n|coef*|m|comm*|min|max" expect=pass
 #[kani::proof]
 #[kani::unwind(5)]
-#[kani::stub(frost_core::serialization::short_id, stub_short_id)]
 #[kani::stub(zeroize::barrier::optimization_barrier, noop_barrier)]
-fn codec_ab_dkg_round1_secret_package() {
+fn codec_enc_dkg_round1_secret_package() {
     let (i, a0, a1, c0, c1) = (any_s_nz(), any_s(), any_s(), any_e_nz(), any_e_nz());
     let (mn, mx) = (any_small_u16(), any_small_u16());
-    let x = dkg::round1::SecretPackage::<Toy251>::new(id_of(i), vec![a0, a1], vss(vec![c0, c1]), mn, mx);
-    enc_dec!(
-        x,
-        dkg::round1::SecretPackage<Toy251>,
-        [i.0, 2, a0.0, a1.0, 2, c0.0, c1.0, mn as u8, mx as u8]
-    );
+    let x = r1sec(i, vec![a0, a1], vec![c0, c1], mn, mx);
+    enc_is!(x, [i.0, 2, a0.0, a1.0, 2, c0.0, c1.0, mn as u8, mx as u8]);
+}
+
+// @harness name=codec_dec_dkg_round1_secret_package props=C12,C13 kind=bounded bound="coefficients length 2, commitment length 2; min_signers, max_signers < 128" tier=quick backs="keys::dkg::round1::SecretPackage lemma (B): deserialize(enc(x)) == Ok(x)" expect=pass
+#[kani::proof]
+#[kani::unwind(5)]
+#[kani::stub(zeroize::barrier::optimization_barrier, noop_barrier)]
+fn codec_dec_dkg_round1_secret_package() {
+    let (i, a0, a1, c0, c1) = (any_s_nz(), any_s(), any_s(), any_e_nz(), any_e_nz());
+    let (mn, mx) = (any_small_u16(), any_small_u16());
+    let x = r1sec(i, vec![a0, a1], vec![c0, c1], mn, mx);
+    dec_is!(x, dkg::round1::SecretPackage<Toy251>, [i.0, 2, a0.0, a1.0, 2, c0.0, c1.0, mn as u8, mx as u8]);
 }
 
 // The refresh variant stores a commitment WITHOUT the constant-term entry (identity stripped):
 // |commitment| == |coefficients| - 1.
-// @harness name=codec_ab_dkg_round1_secret_package_refresh props=C13 kind=bounded bound="(coefficients, commitment) lengths (2,1) and (3,2); min_signers, max_signers < 128" tier=quick backs="refresh_dkg_part1 state: dkg::round1::SecretPackage whose commitment lacks the identity entry: wire format + decode" expect=pass
+// @harness name=codec_ab_dkg_round1_secret_package_refresh_21 props=C13 kind=bounded bound="(coefficients, commitment) lengths (2,1); min_signers, max_signers < 128" tier=quick backs="refresh_dkg_part1 state: dkg::round1::SecretPackage whose commitment lacks the identity entry: lemmas (A)+(B)" expect=pass
 #[kani::proof]
 #[kani::unwind(5)]
-#[kani::stub(frost_core::serialization::short_id, stub_short_id)]
 #[kani::stub(zeroize::barrier::optimization_barrier, noop_barrier)]
-fn codec_ab_dkg_round1_secret_package_refresh() {
+fn codec_ab_dkg_round1_secret_package_refresh_21() {
+    let (i, a1, c1) = (any_s_nz(), any_s(), any_e_nz());
+    let (mn, mx) = (any_small_u16(), any_small_u16());
+    let x = r1sec(i, vec![S(0), a1], vec![c1], mn, mx);
+    enc_dec!(x, dkg::round1::SecretPackage<Toy251>, [i.0, 2, 0, a1.0, 1, c1.0, mn as u8, mx as u8]);
+}
+
+// @harness name=codec_ab_dkg_round1_secret_package_refresh_32 props=C13 kind=bounded bound="(coefficients, commitment) lengths (3,2); min_signers, max_signers < 128" tier=thorough backs="refresh_dkg_part1 state, t = 3: lemmas (A)+(B)" expect=pass
+#[kani::proof]
+#[kani::unwind(5)]
+#[kani::stub(zeroize::barrier::optimization_barrier, noop_barrier)]
+fn codec_ab_dkg_round1_secret_package_refresh_32() {
     let (i, a1, a2, c1, c2) = (any_s_nz(), any_s(), any_s(), any_e_nz(), any_e_nz());
     let (mn, mx) = (any_small_u16(), any_small_u16());
-    let x = dkg::round1::SecretPackage::<Toy251>::new(id_of(i), vec![S(0), a1], vss(vec![c1]), mn, mx);
-    enc_dec!(x, dkg::round1::SecretPackage<Toy251>, [i.0, 2, 0, a1.0, 1, c1.0, mn as u8, mx as u8]);
-    let x = dkg::round1::SecretPackage::<Toy251>::new(id_of(i), vec![S(0), a1, a2], vss(vec![c1, c2]), mn, mx);
+    let x = r1sec(i, vec![S(0), a1, a2], vec![c1, c2], mn, mx);
     enc_dec!(
         x,
         dkg::round1::SecretPackage<Toy251>,
